@@ -95,6 +95,25 @@ theorem hard_scan_refines (grow : Nat → Nat → Nat) (h : Heap) (st : HSt)
     rw [read_empty, List.drop_zero] at r1 r2
     rw [r1, r2]
 
+/-- **The long-word loop of `SoftwrapScanner.Scan` on the heap computes `Model.Wrap.splitLong`** — the branch
+that rebuilds `s.rest` and the one a compacting rewrite would touch.  `word` lies in an array older than the
+`Scan` (`n0` arrays, unchanged since `h0`); `rest` and `token` are the two slices being appended to, each full or
+fresh (`Good`), inside their arrays (`WFS`) and not sharing an array unless one has no capacity (`Sep`).  Then
+after the loop `s.rest` denotes what it denoted followed by the graphemes `splitLong` sends to the rest, and
+`s.token` what it denoted followed by the graphemes `splitLong` keeps on the line — for every width, `w`,
+start index, heap and growth policy. -/
+theorem long_word_loop_refines (grow : Nat → Nat → Nat) (width : Nat) (word : Slice) (h0 : Heap) (n0 : Nat)
+    (hw : word.arr < n0) (ww : WFS h0 word) (h : Heap) (rest token : Slice) (w : Nat)
+    (hn : n0 ≤ h.length) (hfr : ∀ j, j < n0 → arrOf h j = arrOf h0 j)
+    (gr : Good n0 h rest) (gt : Good n0 h token) (wr : WFS h rest) (wt : WFS h token) (sep : Sep rest token) :
+    read (splitLongH grow width word 0 word.len h rest token w).1 (splitLongH grow width word 0 word.len h rest token w).2.1 =
+      read h rest ++ (splitLong width (decide (token.len > 0)) w (read h0 word)).2 ∧
+    read (splitLongH grow width word 0 word.len h rest token w).1 (splitLongH grow width word 0 word.len h rest token w).2.2 =
+      read h token ++ (splitLong width (decide (token.len > 0)) w (read h0 word)).1 := by
+  obtain ⟨a, b, _⟩ := splitLongH_refines grow width word h0 n0 hw ww word.len 0 h rest token w (by omega) hn hfr gr gt wr wt sep
+  rw [List.drop_zero] at a b
+  exact ⟨a, b⟩
+
 /-- Non-vacuity: "a\nb" — the first `Scan` returns the line "a" in a new array, leaves `cells = "b"` as a
 sub-slice of the caller's array, and the caller's array is what it was. -/
 example :
